@@ -151,6 +151,64 @@ pub fn c19_map<const N: usize, const W: u8>() {
     vf::check(j == n && m.len() == n, 1904);
 }
 
+/// Elements whose rendering is ONE chunk of 66 or 70 bytes (a single `write_str`): any staging buffer, chunking or length-dependent
+/// path inside the container's Display/Debug sees a piece longer than the usual small-buffer sizes (16, 32, 64).
+/// W: 0 `{}` of `Map<D, Lg, N>`, 1 `{}` of `Set<Lg, N>`, 2 `{:?}` of the map, 3 `{:?}` of the set, 4 `{}` of `Map<Lg, D, N>` (long key).
+const LONG_A: &str = "AbcdefghijklmnopqrstuvwxyzabcdefghijklmnopqrstuvwxyzabcdefghijklmZ";       // 66 bytes
+const LONG_B: &str = "BcdefghijklmnopqrstuvwxyzabcdefghijklmnopqrstuvwxyzabcdefghijklmnopqY";   // 70 bytes
+#[derive(PartialEq, Eq, Clone, Copy)]
+pub struct Lg(pub bool);
+impl Lg { fn text(self) -> &'static str { if self.0 { LONG_A } else { LONG_B } } }
+impl fmt::Display for Lg { fn fmt(&self, f: &mut fmt::Formatter<'_>) -> fmt::Result { f.write_str(self.text()) } }
+impl fmt::Debug for Lg { fn fmt(&self, f: &mut fmt::Formatter<'_>) -> fmt::Result { f.write_str(self.text()) } }
+pub const BUFL: usize = 160;
+pub struct BufL { pub b: [u8; BUFL], pub n: usize, pub overflow: bool }
+impl BufL { fn new() -> BufL { BufL { b: [0; BUFL], n: 0, overflow: false } } fn push(&mut self, c: u8) { if self.n < BUFL { self.b[self.n] = c; self.n += 1; } else { self.overflow = true; } } fn text(&mut self, s: &str) { for &c in s.as_bytes() { self.push(c); } } }
+impl Write for BufL { fn write_str(&mut self, s: &str) -> fmt::Result { self.text(s); Ok(()) } }
+pub fn c19_long<const N: usize, const W: u8>() {
+    let (mut buf, mut exp) = (BufL::new(), BufL::new());
+    let (a, b, k1, k2) = (vf::any_bool(), vf::any_bool(), vf::any_u8(), vf::any_u8());
+    let n = vf::any_usize();
+    vf::assume(n <= N && n <= 2 && (n < 2 || (a != b && D(k1) != D(k2))));
+    let r;
+    if W == 0 || W == 2 {
+        let mut m: Map<D, Lg, N> = empty_map();
+        if n >= 1 { m.insert(D(k1), Lg(a)); }
+        if n >= 2 { m.insert(D(k2), Lg(b)); }
+        r = if W == 0 { write!(buf, "{}", m) } else { write!(buf, "{:?}", m) };
+        exp.push(b'{');
+        let mut first = true;
+        for (k, v) in m.iter() { if !first { exp.text(", "); } first = false; exp.push(if W == 0 { k.disp() } else { k.dbg() }); exp.text(": "); exp.text(v.text()); }
+        exp.push(b'}');
+        vf::check(m.len() == n, 1904);
+    } else if W == 4 {
+        let mut m: Map<Lg, D, N> = empty_map();
+        if n >= 1 { m.insert(Lg(a), D(k1)); }
+        if n >= 2 { m.insert(Lg(b), D(k2)); }
+        r = write!(buf, "{}", m);
+        exp.push(b'{');
+        let mut first = true;
+        for (k, v) in m.iter() { if !first { exp.text(", "); } first = false; exp.text(k.text()); exp.text(": "); exp.push(v.disp()); }
+        exp.push(b'}');
+        vf::check(m.len() == n, 1904);
+    } else {
+        let mut s: Set<Lg, N> = empty_set();
+        if n >= 1 { s.insert(Lg(a)); }
+        if n >= 2 { s.insert(Lg(b)); }
+        r = if W == 1 { write!(buf, "{}", s) } else { write!(buf, "{:?}", s) };
+        exp.push(b'{');
+        let mut first = true;
+        for k in s.iter() { if !first { exp.text(", "); } first = false; exp.text(k.text()); }
+        exp.push(b'}');
+        vf::check(s.len() == n, 1904);
+    }
+    vf::check(r.is_ok(), 1903);
+    vf::check(!buf.overflow && !exp.overflow && buf.n == exp.n, 1901);
+    let mut i = 0;
+    while i < BUFL { if i < exp.n { vf::check(buf.b[i] == exp.b[i], 1902); } i += 1; }
+    if n >= 1 { vf::reach(1); } else { vf::reach(2); }
+}
+
 /// Set: `{}` Display, `{:?}`, `{:#?}`
 pub fn c19_set<const N: usize, const W: u8>() {
     let (s, n) = any_d_set::<N>();
@@ -375,6 +433,7 @@ pub fn c06_fmt_specs<const N: usize, const W: u8>() {
 
 harnesses! {
     c19_nested: [1, 1] [1, 2];
+    c19_long: [1, 0] [1, 1] [1, 2] [1, 3] [1, 4];
     c06_fmt_specs: [1, 0] [1, 1] [1, 2] [1, 3] [1, 4];
     c19_map: [0, 0] [0, 1] [0, 2] [1, 0] [1, 1] [1, 2] [2, 0] [2, 1] [2, 2] [1, 3] [2, 3];
     c19_set: [0, 0] [0, 1] [0, 2] [1, 0] [1, 1] [1, 2] [2, 0] [2, 1] [2, 2] [1, 3] [2, 3];
@@ -384,6 +443,7 @@ harnesses! {
     @deep
     c19_zst: [2, 0] [2, 1] [2, 2] [2, 3] [2, 4] [2, 5] [2, 6] [2, 7] [2, 8] [2, 9] [2, 10] [2, 11];
     c19_nested: [2, 1] [2, 2];
+    c19_long: [2, 0] [2, 1] [2, 2] [2, 3] [2, 4];
     c19_map: [3, 0] [3, 1] [3, 2] [3, 3];
     c19_set: [3, 0] [3, 1] [3, 2] [3, 3];
     c19_map_iters: [2, 0] [2, 1] [2, 2] [2, 3] [2, 4] [2, 6] [2, 7] [2, 8] [3, 0] [3, 1] [3, 2] [3, 3] [3, 4] [3, 5] [3, 6] [3, 7] [3, 8];
